@@ -68,6 +68,9 @@ func floor(s *slip.Scope, f slip.Object, args slip.List, depth int) slip.Values 
 		div = args[1]
 	}
 	num, div = slip.NormalizeNumber(num, div)
+	if fd, ok := div.(slip.Fixnum); ok && fd == 0 {
+		slip.DivisionByZeroPanic(s, depth, slip.Symbol("floor"), args, "divide by zero")
+	}
 
 	switch tn := num.(type) {
 	case slip.Fixnum:
